@@ -56,12 +56,16 @@ def cases(ctx):
     t = ctx.tier == "thorough"
     S, N = ctx.shard, ctx.nshards
     k = 0
-    lens = list(range(0, 65)) + [100, 1000, 16383, 16384, 40000, 65400, 65487, 65488, 65536, 70000, 131072] + ([1 << 20, (1 << 24) + 5] if t else [])
+    lens = list(range(0, 65)) + [100, 1000, 16383, 16384, 40000, 65400, 65487, 65488, 65536, 70000, 131072] + ([1 << 20, (1 << 22) + 5] if t else [])
     reps = 20 if t else 1
     for rep in range(reps):
         for L in lens:
             k += 1
             if k % N != S:
+                continue
+            if L >= 65400 and rep >= 2:
+                continue  # the reference (pure-Python AES + HMAC) needs seconds to minutes per call at these sizes
+            if L > (1 << 20) and rep >= 1:
                 continue
             a = r.choice(EDGE) if r.random() < 0.25 else r.randrange(1, ec.N)
             b = r.choice(EDGE) if r.random() < 0.25 else r.randrange(1, ec.N)
